@@ -131,7 +131,13 @@ func (mq *MessageQueue) buildMessage(size uint64, buildMessageFn func(*Builder))
 		mq.builders = append(mq.builders, NewBuilder(ctx, topic))
 	}
 	builder := mq.builders[len(mq.builders)-1]
+	sizeBefore := builder.accountedSize()
 	buildMessageFn(builder)
+	if sizeAfter := builder.accountedSize(); sizeAfter >= sizeBefore && sizeAfter-sizeBefore < size {
+		// return the part of the reservation the build function did not use
+		// (e.g. the response stream was closed while waiting for memory)
+		_ = mq.allocator.ReleaseBlockMemory(mq.p, size-(sizeAfter-sizeBefore))
+	}
 	return !builder.Empty()
 }
 
